@@ -183,10 +183,10 @@ Lemma nf_att_p2p s sid u v b : no_frames (snd (att_p2p s sid u v b)).
 Proof. unfold att_p2p. nf. Qed.
 Lemma nf_att_grp s sid u g b : no_frames (snd (att_grp s sid u g b)).
 Proof. unfold att_grp. nf. Qed.
-Lemma nf_want s sid u t m : no_frames (snd (want_op s sid u t m)).
-Proof. unfold want_op. nf. Qed.
-Lemma nf_given s sid u t v m : no_frames (snd (given_op s sid u t v m)).
-Proof. unfold given_op. nf. Qed.
+Lemma nf_want rep s sid u t m : no_frames (snd (want_op_gen rep s sid u t m)).
+Proof. unfold want_op_gen. nf. Qed.
+Lemma nf_given rep s sid u t v m : no_frames (snd (given_op_gen rep s sid u t v m)).
+Proof. unfold given_op_gen. nf. Qed.
 Lemma nf_evict s sid u t v : no_frames (snd (evict_op s sid u t v)).
 Proof. unfold evict_op. nf. Qed.
 Lemma nf_unsub s sid u t : no_frames (snd (unsub_op s sid u t)).
@@ -194,12 +194,12 @@ Proof. unfold unsub_op. nf. Qed.
 Lemma nf_pub s sid u t : no_frames (snd (pub_op s sid u t)).
 Proof. unfold pub_op. nf. Qed.
 
-Lemma step_entitled s o :
+Lemma step_entitled_gen rep s o :
   match o with
   | Deliver i => match take_nth i [] (s_net s) with
-                 | Some (g, rest) => Forall (entitled (set_net (fun _ => rest) s)) (snd (step s o))
-                 | None => no_frames (snd (step s o)) end
-  | _ => no_frames (snd (step s o))
+                 | Some (g, rest) => Forall (entitled (set_net (fun _ => rest) s)) (snd (step_gen rep s o))
+                 | None => no_frames (snd (step_gen rep s o)) end
+  | _ => no_frames (snd (step_gen rep s o))
   end.
 Proof.
   destruct o; simpl.
@@ -302,7 +302,11 @@ Definition converged (s : state) : Prop :=
   (forall g u m, has_P s (TGrp g) u -> get_me s u = Some m ->
                  (told_on m (TGrp g) = true <-> grp_attached s g)).
 
+Definition reach_gen (rep : bool) (s : state) : Prop := exists h, s = fst (run_gen rep init h).
+Definition converges_statement_gen (rep : bool) : Prop := forall s, reach_gen rep s -> quiescent s -> converged s.
 Definition c10_converges_statement : Prop := forall s, reach s -> quiescent s -> converged s.
+(* the same statement about the code BEFORE the repair findings/C10_p2p_unmute.diff *)
+Definition c10_converges_statement_unrepaired : Prop := converges_statement_gen false.
 
 (* executable quiescence test *)
 Definition quiescent_b (s : state) : bool :=
@@ -352,37 +356,46 @@ Lemma has_P_intro s t u x p :
   is_presencer (p_mode p) = true -> has_P s t u.
 Proof. intros. exists x, p. auto. Qed.
 
-Lemma converges_refuted_by (h : list op) (u v : N) :
-  quiescent_b (fst (run init h)) = true ->
+Lemma converges_refuted_by (rep : bool) (h : list op) (u v : N) :
+  quiescent_b (fst (run_gen rep init h)) = true ->
   u <> v ->
   (exists x p q m sid,
-      get_top (fst (run init h)) (p2p_name u v) = Some x /\
+      get_top (fst (run_gen rep init h)) (p2p_name u v) = Some x /\
       aget N.eqb u (t_users x) = Some p /\ p_deleted p = false /\ is_presencer (p_mode p) = true /\
       aget N.eqb v (t_users x) = Some q /\ p_deleted q = false /\ is_presencer (p_mode q) = true /\
-      get_me (fst (run init h)) v = Some m /\ told_on m (TMe u) = false /\
-      (exists mu, get_me (fst (run init h)) u = Some mu /\ In sid (me_sess mu)) /\
-      sess_bkg (fst (run init h)) sid = false) ->
-  ~ c10_converges_statement.
+      get_me (fst (run_gen rep init h)) v = Some m /\ told_on m (TMe u) = false /\
+      (exists mu, get_me (fst (run_gen rep init h)) u = Some mu /\ In sid (me_sess mu)) /\
+      sess_bkg (fst (run_gen rep init h)) sid = false) ->
+  ~ converges_statement_gen rep.
 Proof.
   intros Q NE (x & p & q & m & sid & Hx & Hp & Dp & Pp & Hq & Dq & Pq & Hm & Told & (mu & Hmu & Hin) & Hb) ST.
-  destruct (ST (fst (run init h))) as [C _].
+  destruct (ST (fst (run_gen rep init h))) as [C _].
   - exists h. reflexivity.
   - now apply quiescent_b_sound.
   - specialize (C u v m NE (has_P_intro _ _ _ _ _ Hx Hp Dp Pp) (has_P_intro _ _ _ _ _ Hx Hq Dq Pq) Hm).
     destruct C as [_ C]. rewrite Told in C. assert (F : false = true) by (apply C; exists mu, sid; auto). discriminate.
 Qed.
 
-Lemma converges_refuted_unmute : ~ c10_converges_statement.
+(* before the repair: mute + un-mute of a p2p subscription leaves the contact disabled *)
+Lemma converges_p2p_unmute_unrepaired_refuted : ~ c10_converges_statement_unrepaired.
 Proof.
-  apply (converges_refuted_by h_unmute 2 1); [vm_compute; reflexivity | discriminate |].
+  apply (converges_refuted_by false h_unmute 2 1); [vm_compute; reflexivity | discriminate |].
   vm_compute. do 5 eexists. repeat split; try reflexivity.
   - eexists. split; [reflexivity|]. left. reflexivity.
   - reflexivity.
 Qed.
 
+(* with the repair the same history (plus the deliveries of the new handshake) ends converged:
+   user 1's entry for user 2 is enabled and online again *)
+Lemma p2p_unmute_repaired :
+  quiescent_b (fst (run init (h_unmute ++ [D; D; D]))) = true /\
+  exists m, get_me (fst (run init (h_unmute ++ [D; D; D]))) 1 = Some m /\
+            aget tname_eqb (TMe 2) (me_subs m) = Some (mkPsd true true).
+Proof. split; [vm_compute; reflexivity|]. vm_compute. eexists. split; reflexivity. Qed.
+
 Lemma converges_refuted_race : ~ c10_converges_statement.
 Proof.
-  apply (converges_refuted_by h_race 2 1); [vm_compute; reflexivity | discriminate |].
+  apply (converges_refuted_by true h_race 2 1); [vm_compute; reflexivity | discriminate |].
   vm_compute. do 5 eexists. repeat split; try reflexivity.
   - eexists. split; [reflexivity|]. left. reflexivity.
   - reflexivity.
@@ -423,7 +436,7 @@ Definition entitled_at (s : state) (o : op) (f : out) : Prop :=
 
 Lemma no_leak_all s o : Forall (entitled_at s o) (snd (step s o)).
 Proof.
-  pose proof (step_entitled s o) as H. unfold entitled_at.
+  pose proof (step_entitled_gen true s o) as H. unfold entitled_at.
   destruct o; try exact H.
   destruct (take_nth i [] (s_net s)) as [[g rest]|]; exact H.
 Qed.
@@ -557,9 +570,9 @@ Qed.
 Lemma mem_modes x u w g : mem_ok x -> mem_ok (set_pud u (p_set_modes w g (get_pud x u)) x).
 Proof. intros H. apply mem_set_pud; auto. simpl. apply cached_get_pud_deleted. Qed.
 
-Lemma tops_want s sid u t m : tops_ok s -> tops_ok (fst (want_op s sid u t m)).
+Lemma tops_want rep s sid u t m : tops_ok s -> tops_ok (fst (want_op_gen rep s sid u t m)).
 Proof.
-  intros H. unfold want_op. destruct (get_top s t) as [x|] eqn:G; [|exact H].
+  intros H. unfold want_op_gen. destruct (get_top s t) as [x|] eqn:G; [|exact H].
   pose proof (tops_get _ _ _ H G) as Hx.
   brk; auto. apply tops_send, tops_put; auto. now apply mem_modes.
 Qed.
@@ -567,9 +580,9 @@ Qed.
 Lemma mem_if_evict (c : bool) x v : mem_ok x -> mem_ok (if c then x else fst (evict_user x v false)).
 Proof. intros H. destruct c; auto. now apply mem_evict. Qed.
 
-Lemma tops_given s sid u t v m : tops_ok s -> tops_ok (fst (given_op s sid u t v m)).
+Lemma tops_given rep s sid u t v m : tops_ok s -> tops_ok (fst (given_op_gen rep s sid u t v m)).
 Proof.
-  intros H. unfold given_op. destruct (get_top s t) as [x|] eqn:G; [|exact H].
+  intros H. unfold given_op_gen. destruct (get_top s t) as [x|] eqn:G; [|exact H].
   pose proof (tops_get _ _ _ H G) as Hx.
   brk; auto; apply tops_send, tops_put; auto; apply mem_if_evict.
   - now apply mem_modes.
@@ -660,7 +673,7 @@ Proof.
   - destruct (get_top s (TGrp g0)); [|exact H]. destruct (negb (t_loaded t)); [exact H|]. simpl. destruct (r_reply _); exact H.
 Qed.
 
-Lemma tops_step s o : tops_ok s -> tops_ok (fst (step s o)).
+Lemma tops_step rep s o : tops_ok s -> tops_ok (fst (step_gen rep s o)).
 Proof.
   intros H. destruct o; simpl.
   - destruct (open_sess s sid u bkg) as [[s1 b]|] eqn:O; [|exact H].
@@ -687,16 +700,16 @@ Proof.
   - destruct (take_nth i [] (s_net s)) as [[g rest]|]; [|exact H]. now apply tops_deliver.
 Qed.
 
-Lemma tops_run h : forall s, tops_ok s -> tops_ok (fst (run s h)).
+Lemma tops_run rep h : forall s, tops_ok s -> tops_ok (fst (run_gen rep s h)).
 Proof.
   induction h as [|o r IH]; simpl; intros s H; auto.
-  pose proof (tops_step s o H) as H1. destruct (step s o) as [s1 o1]. simpl in H1.
-  specialize (IH s1 H1). destruct (run s1 r) as [s2 o2]. exact IH.
+  pose proof (tops_step rep s o H) as H1. destruct (step_gen rep s o) as [s1 o1]. simpl in H1.
+  specialize (IH s1 H1). destruct (run_gen rep s1 r) as [s2 o2]. exact IH.
 Qed.
 
 Lemma members_ok_reach s : reach s -> members_ok s.
 Proof.
-  intros [h ->]. assert (T : tops_ok (fst (run init h))) by (apply tops_run; constructor).
+  intros [h ->]. assert (T : tops_ok (fst (run init h))) by (apply (tops_run true); constructor).
   intros t x sid uid G Hin. exact (tops_get _ _ _ T G (sid, uid) Hin).
 Qed.
 
